@@ -181,6 +181,7 @@ class Interp:
         self.edits_after = None     # counts edits after an interesting removal / transformation
         self.steps = 0
         self._impls = None
+        self.originals = []      # circuits that were copied / pickled earlier: later edits of the copy must not reach them
 
     # helpers -----------------------------------------------------------------------------
     def node(self, k):
@@ -370,6 +371,7 @@ class Interp:
             structural(c, 'original after copy()')
             if canon_circuit(c) != m.canon():
                 raise Violation('copy() modified the original')
+            self.originals.append((c, canon_circuit(c), self.steps))
             self.c = c2
             done = True
         elif name == 'pickle':
@@ -378,6 +380,7 @@ class Interp:
                 raise Violation('pickle round trip != original under ==')
             if c2.name != c.name:
                 raise Violation('pickle round trip lost the circuit name')
+            self.originals.append((c, canon_circuit(c), self.steps))
             self.c = c2
             done = True
         elif name == 'subst':
@@ -415,7 +418,14 @@ class Interp:
             self.check(f'after step {self.steps} ({name} {a} {b} {p} {q})')
         return done
 
+    def check_originals(self):
+        for c0, snap, step in self.originals:
+            structural(c0, f'circuit copied at step {step}, after later edits of the copy')
+            if canon_circuit(c0) != snap:
+                raise Violation(f'edits of a copy changed the circuit it was copied from (copied at step {step})')
+
     def obs(self):
+        self.check_originals()
         nt = self.edits_after is not None and self.edits_after >= 2
         return Obs(nt, sorted(self.flags) + (['edits_after_removal>=2'] if nt else []), checks=self.steps)
 
